@@ -313,8 +313,10 @@ class VolumeSubdivision(Logger):
         pcenter = sum([Vec(self.mesh.vertices[a]) for a in f ])/3 # barycenter
         self.mesh.vertices.append(pcenter)
         
-        for c in self.conn.face_to_cells(face_id):
-            iF = self.conn.in_cell_face_index(c,face_id)
+        # look the adjacent cells up in the data being edited: self.conn describes the mesh as it was when the block was opened
+        adjacent = [_c for _c in self.mesh.id_cells if len(self.mesh.cells[_c])==4 and all(_v in self.mesh.cells[_c] for _v in f)]
+        for c in adjacent:
+            iF = [_i for _i,_v in enumerate(self.mesh.cells[c]) if _v not in f][0]
             new_cells = []
             for i in range(4):
                 if i==iF : continue # opposite point in tet from face
